@@ -128,6 +128,22 @@ Reasons(r) ==
     C(m.vRange # ExpVBlocks(r, SelectSeq(r.chain, LAMBDA b : b.seq >= m.vFrom /\ b.seq <= m.vTo)), "C07:blocks-in-range-verbose"),
     C(m.vLast # ExpVBlocks(r, LET k == IF m.vLastN < Len(r.chain) THEN m.vLastN ELSE Len(r.chain) IN SubSeq(r.chain, Len(r.chain) - k + 1, Len(r.chain))),
       "C07:last-blocks-verbose"),
+    C(\E i \in DOMAIN m.byHash :
+        LET x == m.byHash[i] c == { b \in Rng(r.chain) : b.hash = x.asked } IN
+          \/ x.found # (c # {})
+          \/ (x.found /\ x.block # (IF x.verbose THEN ExpVBlock(r, CHOOSE b \in c : TRUE) ELSE [hash |-> x.asked, txns |-> << >>])), "C07:block-by-hash"),
+    C(\E i \in DOMAIN m.bySeqV :
+        LET x == m.bySeqV[i] IN
+          \/ x.found # (x.seq <= r.st.headSeq)
+          \/ (x.found /\ x.block # ExpVBlock(r, r.chain[x.seq + 1])), "C07:block-by-seq-verbose"),
+    C(\E i \in DOMAIN m.oneBySeq :
+        LET x == m.oneBySeq[i] IN
+          IF x.seq <= r.st.headSeq THEN ~x.found \/ x.refused \/ x.block.hash # r.chain[x.seq + 1].hash ELSE x.found, "C07:get-block"),
+    C(m.seqsV # ExpVBlocks(r, [i \in DOMAIN m.seqs |-> r.chain[m.seqs[i] + 1]]), "C07:blocks-by-sequence-list-verbose"),
+    C(\E i \in DOMAIN m.lookup :
+        LET x == m.lookup[i] IN
+          \/ x.confirmed # (\E y \in ChainTxns(r) : y.t.hash = x.hash)
+          \/ x.pending # (x.hash \in PoolHashes(r)), "C07:transaction-lookup"),
     \* transaction history: the status of single transactions
     C(\E i \in DOMAIN m.status : ~StatusOK(r, m.status[i]), "C07:transaction-status"),
     \* not views of a listed property (NOTE lines only)
@@ -141,6 +157,12 @@ Reasons(r) ==
                       \/ Rng(m.sumIncoming) # UNION { { r.pool[i].outs[k].id : k \in { j \in DOMAIN r.pool[i].outs : keep(r.pool[i].outs[j].addr) } } : i \in DOMAIN r.pool }),
       "X:outputs-summary"),
     C(~m.sumOK /\ \A i \in DOMAIN r.pool : Rng(r.pool[i].ins) \subseteq Ids(s.unspent), "X:outputs-summary-failed-without-a-stale-pending-transaction"),
+    C(m.poolVerboseOK /\ { [hash |-> m.poolVerbose[i].hash, ins |-> m.poolVerbose[i].ins] : i \in DOMAIN m.poolVerbose }
+                          # { [hash |-> r.pool[i].hash, ins |-> ExpIns(r, r.pool[i].ins, r.st.headTime)] : i \in DOMAIN r.pool }, "X:pool-verbose"),
+    C(Rng(m.paying) # PoolPaying(r, Rng(m.payQ)), "X:pending-paying-addresses"),
+    C(Rng(m.recv) # UNION { { r.pool[i].outs[k].id : k \in { j \in DOMAIN r.pool[i].outs : r.pool[i].outs[j].addr \in Rng(m.recvQ) } } : i \in DOMAIN r.pool }
+      \/ ~NoDupSeq(m.recv), "X:pending-outputs-to-addresses"),
+    C(m.spendsOK /\ Rng(m.spends) # { u.id : u \in { v \in s.unspent : v.addr \in Rng(m.payQ) /\ \E i \in DOMAIN r.pool : v.id \in Rng(r.pool[i].ins) } }, "X:pending-spends-of-addresses"),
     C(m.richOK /\ (~RichOK(m.richAll, s, {}, Rng(m.lockedAddrs)) \/ ~RichOK(m.richNoDist, s, Rng(m.distAddrs), Rng(m.lockedAddrs))), "X:rich-list")
   >>, LAMBDA x : x # "ok")
 
